@@ -172,17 +172,21 @@ def report_diffs(chk: Check, case, diffs, how: str, off, on) -> int:
     return real
 
 
+def judge_differential(chk: Check, case, res: dict) -> None:
+    """The observable of the property: same-process cache off vs cache on, and the counterexamples of the cache-on run."""
+    report_diffs(chk, case, res["diffs"], "same process", res["s_off"], res["s_on"])
+    for sig, pid, values in res["models"]["invalid"]:
+        chk.violation(f"{case.key()}:{sig}:model-invalid",
+                      f"{sig} path {pid}: the counterexample reported with --cache-solver does not satisfy the path's query",
+                      replay_of(case, sig, {"path": pid, "model": values}))
+
+
 def absorb(chk: Check, case, res: dict, batch) -> int:
     """Book one paired case (computed here or in a shard process); returns the trace id in the batch."""
-    report_diffs(chk, case, res["diffs"], "same process", res["s_off"], res["s_on"])
     m = res["models"]
     chk.count("counterexamples_compared", m["compared"])
     chk.count("counterexamples_identical", m["identical"])
     chk.count("counterexamples_revalidated", m["revalidated"])
-    for sig, pid, values in m["invalid"]:
-        chk.violation(f"{case.key()}:{sig}:model-invalid",
-                      f"{sig} path {pid}: the counterexample reported with --cache-solver does not satisfy the path's query",
-                      replay_of(case, sig, {"path": pid, "model": values}))
     st = res["stats"]
     chk.count("tests_run_pairs", case.ntests)
     chk.count("queries", st["queries"])
@@ -225,14 +229,6 @@ def run(chk: Check, tier: str):
                           {"output": b["output"], "expected": b["expected"], "got": b["got"]})
         import halmos.solve as hsolve
 
-        def broken_parse(out):  # control: a parser that drops the last name must be caught by the same comparison
-            r = hsolve.parse_unsat_core(out)
-            return r[:-1] if r else r
-
-        if not uc.unsatcache_check_shapes(shapes, broken_parse):
-            raise MachineryError("negative control: a parse_unsat_core that drops a name was not noticed")
-        chk.count("negative_controls_rejected")
-
         # 2./3. paired runs (quick: in this process; thorough: five processes, each runs its contracts in sequence)
         t_pairs = time.time()
         batch = uc.UnsatcacheBatch()
@@ -242,26 +238,35 @@ def run(chk: Check, tier: str):
                 results[case.index] = uc.unsatcache_case(case, work, pool, reserialize=(case.index % 7 == 3))
                 chk.cov.setdefault("case_times_s", []).append([case.index] + results[case.index]["stats"]["times"])
 
-        # mutants of the implementation (wrappers installed by the harness only); compared with this process' cache-off run
+        def run_mutants():
+            """Runs of deliberately broken caches (wrappers installed by the harness only).  They are only *run* here;
+            they are judged after the real logs and the real differential have been reported."""
+            mres, part = {}, {}
+            for mutant, limit in (("drop_one_id", 4), ("store_subset", 4), ("nopin", 2 if tier == "quick" else 12)):
+                for case in cases[:limit]:
+                    if mutant != "nopin" and case.cli[:2] != ("--solver-threads", "1"):
+                        continue
+                    r = uc.unsatcache_case(case, work, pool, mutant=mutant, s_off=(results.get(case.index) or {}).get("s_off"))
+                    mres.setdefault(mutant, []).append(r)
+                    chk.count("mutant_runs")
+                    if mutant != "nopin" and any(d[1] != "inconclusive" for d in r["diffs"]):
+                        break  # the on/off differential already shows the broken cache
+            for mutant, cfg in (("nopin_futures", "MC_Trace_UnsatCache_termvars.cfg"), ("nopin_termvars", "MC_Trace_UnsatCache_futures.cfg")):
+                pb = uc.UnsatcacheBatch()
+                for case in cases[: (0 if tier == "quick" else 6)]:
+                    r = uc.unsatcache_case(case, work, pool, mutant=mutant, with_off=False)
+                    pb.add_built(r["trace"])
+                    chk.count("mutant_runs")
+                part[mutant] = (pb, cfg)
+            return mres, part
+
         t_mut = time.time()
-        mutant_res = {}
-        for mutant, limit in (("drop_one_id", 4), ("store_subset", 4), ("nopin", 2 if tier == "quick" else 12)):
-            for case in cases[:limit]:
-                if mutant != "nopin" and case.cli[:2] != ("--solver-threads", "1"):
-                    continue
-                r = uc.unsatcache_case(case, work, pool, mutant=mutant, s_off=(results.get(case.index) or {}).get("s_off"))
-                mutant_res.setdefault(mutant, []).append(r)
-                chk.count("mutant_runs")
-                if mutant != "nopin" and any(d[1] != "inconclusive" for d in r["diffs"]):
-                    break  # the on/off differential already shows the broken cache
-        partial = {}
-        for mutant, cfg in (("nopin_futures", "MC_Trace_UnsatCache_termvars.cfg"), ("nopin_termvars", "MC_Trace_UnsatCache_futures.cfg")):
-            pb = uc.UnsatcacheBatch()
-            for case in cases[: (0 if tier == "quick" else 6)]:
-                r = uc.unsatcache_case(case, work, pool, mutant=mutant, with_off=False)
-                pb.add_built(r["trace"])
-                chk.count("mutant_runs")
-            partial[mutant] = (pb, cfg)
+        mutants_done, mutants_error = None, None
+        if nshards:  # thorough: use the time the shard processes need anyway
+            try:
+                mutants_done = run_mutants()
+            except MachineryError as e:  # judged later: a really broken cache may also break a control run
+                mutants_error = e
 
         # collect the background work
         t_join = time.time()
@@ -271,40 +276,17 @@ def run(chk: Check, tier: str):
                 results[r["index"]] = r
         if sorted(results) != [c.index for c in cases]:
             raise MachineryError("some cases were not run")
+
+        # ---- verdicts about halmos: the on/off differential and the REAL logs, before any negative control is looked at
         tids = {}
         for case in cases:
             tids[case.index] = absorb(chk, case, results[case.index], batch)
         chk.cov["core_sizes_seen"] = sorted(chk.cov.pop("_core_sizes", set()))
         chk.cov["programs"] = len(cases) * 3
-        # fresh-process baseline (cache off; nothing else ever ran in those processes)
-        base = {}
-        for k in range(nb):
-            for case, s in zip(cases[:nfresh][k::nb], bg.results[f"baseline{k}"]):
-                base[case.index] = s
-        for case in cases[:nfresh]:
-            report_diffs(chk, case, uc.unsatcache_compare(base[case.index], results[case.index]["s_on"]), "fresh process",
-                         base[case.index], results[case.index]["s_on"])
-            chk.count("tests_compared_with_fresh_process", case.ntests)
-        model_check_verdicts(chk, tier, bg)
-
-        # 5. negative controls on the logs themselves
-        wanted = {"rebind": {"core-id-rebound"}, "drop_core": {"hit-without-core", "core-list-mismatch"},
-                  "flip_hit": {"hit-without-core"}, "truth_sat": {"hit-truth-not-unsat"}}
-        controls = {}
-        for how in wanted:
-            for t in range(1, len(cases) + 1):
-                tid = batch.corrupt_copy(t, how)
-                if tid:
-                    controls[tid] = how
-                    break
-            else:
-                raise MachineryError(f"no recorded log admits the control corruption {how!r} (no cache hit was recorded?)")
-        mutant_tids = {m: [batch.add_built(r["trace"], {"mutant": m}) for r in rs] for m, rs in mutant_res.items()}
-
-        # trace validation, one JVM for all logs
         t_val = time.time()
         res, r = batch.validate(work, workers=4 if tier == "quick" else 8)
         chk.add_tlc(r)
+        fidelity = []  # rejections that are about the model / the recorder, not about the cache
         for case in cases:
             tid = tids[case.index]
             v = res[tid]
@@ -313,48 +295,101 @@ def run(chk: Check, tier: str):
                 continue
             detail = f"log of case {case.index} rejected at event {v['p'] + 1}/{v['n']} ({v['ev']}): {v['why']}"
             ev = batch.traces[tid - 1]["events"][max(0, v["p"] - 6): v["p"] + 1]
+            chk.cov.setdefault("real_logs_rejected", {}).setdefault(v["why"], 0)
+            chk.cov["real_logs_rejected"][v["why"]] += 1
             if v["why"] in VIOLATION_CLAUSES:
                 chk.violation(f"{case.key()}:trace:{v['why']}", detail, replay_of(case, None, {"events_before_rejection": ev}))
             elif v["why"] in PIN_CLAUSES:
-                raise MachineryError("the pinning model (submitted_futures + shared term_to_vars) no longer describes the implementation: "
-                                     + detail + "; TLC refutes CacheSound when no pin is left (MC_UnsatCache_nopin.cfg)")
+                fidelity.append("the pinning model (submitted_futures + shared term_to_vars) no longer describes the implementation: "
+                                + detail + "; TLC refutes CacheSound when no pin is left (MC_UnsatCache_nopin.cfg)")
             else:
-                raise MachineryError(f"trace machinery: {detail}\n{json.dumps(ev)[:1500]}")
-        for tid, how in controls.items():
-            v = res[tid]
-            if v["ok"] or v["why"] not in wanted[how]:
-                raise MachineryError(f"negative control {how}: corrupted log was {'accepted' if v['ok'] else 'rejected with ' + v['why']}")
-            chk.count("negative_controls_rejected")
-        for mutant, mt in mutant_tids.items():
-            whys = [res[t]["why"] for t in mt if not res[t]["ok"]]
-            nd = sum(1 for r_ in mutant_res[mutant] for d in r_["diffs"] if d[1] != "inconclusive")
-            chk.cov.setdefault("mutants", {})[mutant] = {"runs": len(mt), "logs_rejected": whys, "differential_disagreements": nd}
-            if not whys and not nd:
-                raise MachineryError(f"negative control: the broken cache {mutant!r} was not noticed by trace validation nor by the differential")
-            if mutant == "nopin" and not whys:
-                raise MachineryError("negative control: releasing both pins did not lead to a rejected log")
-            chk.count("negative_controls_rejected")
-        if tier == "thorough":
-            # how far do the runs without pins get?  (NoPin model: only clauses about stored cores and hits reject)
-            nbatch = uc.UnsatcacheBatch()
-            for t in mutant_tids.get("nopin", []):
-                nbatch.add_built(batch.traces[t - 1])
-            nres, nr = nbatch.validate(work, cfg="MC_Trace_UnsatCache_nopin.cfg")
-            chk.add_tlc(nr)
-            chk.cov["mutants"]["nopin"]["clauses_under_nopin_model"] = sorted(v["why"] for v in nres.values() if not v["ok"])
-        for mutant, (pb, cfg) in partial.items():
-            if not pb.traces:
-                continue
-            pres, pr = pb.validate(work, cfg=cfg)
-            chk.add_tlc(pr)
-            badp = {t: v for t, v in pres.items() if not v["ok"]}
-            chk.cov.setdefault("mutants", {})[mutant] = {"runs": len(pres), "logs_rejected": [v["why"] for v in badp.values()], "validated_against": cfg}
-            if badp:
-                raise MachineryError(f"model fidelity: with only one reference released ({mutant}) the log is rejected by {cfg}: {badp}")
-            chk.count("single_pin_runs_accepted", len(pres))
+                fidelity.append(f"trace machinery: {detail}\n{json.dumps(ev)[:1500]}")
+        for case in cases:
+            judge_differential(chk, case, results[case.index])
+        base = {}  # fresh-process baseline (cache off; nothing else ever ran in those processes)
+        for k in range(nb):
+            for case, s in zip(cases[:nfresh][k::nb], bg.results[f"baseline{k}"]):
+                base[case.index] = s
+        for case in cases[:nfresh]:
+            report_diffs(chk, case, uc.unsatcache_compare(base[case.index], results[case.index]["s_on"]), "fresh process",
+                         base[case.index], results[case.index]["s_on"])
+            chk.count("tests_compared_with_fresh_process", case.ntests)
+        t_val_end = time.time()
+        if fidelity and not chk.nviol:
+            raise MachineryError(fidelity[0])
+        if fidelity:
+            chk.notes.append(f"{len(fidelity)} further logs were rejected by model-fidelity clauses (not judged: violations were found)")
+        model_check_verdicts(chk, tier, bg)
 
-        chk.cov["timing_s"] = {"paired_runs_in_process": round(t_mut - t_pairs, 1), "mutant_runs": round(t_join - t_mut, 1),
-                               "wait_for_background": round(t_val - t_join, 1), "trace_validation": round(time.time() - t_val, 1)}
+        # ---- negative controls: evaluated only when the real logs conform (otherwise they cannot be evaluated: skipped)
+        if chk.nviol:
+            chk.cov["negative_controls_skipped"] = ("the real logs / the real differential already violate the model; controls on "
+                                                    "corrupted copies and on mutants of this implementation were not evaluated")
+        else:
+            def broken_parse(out):  # a parser that drops the last name must be caught by the same comparison
+                rr = hsolve.parse_unsat_core(out)
+                return rr[:-1] if rr else rr
+
+            if not uc.unsatcache_check_shapes(shapes, broken_parse):
+                raise MachineryError("negative control: a parse_unsat_core that drops a name was not noticed")
+            chk.count("negative_controls_rejected")
+            if mutants_error:
+                raise mutants_error
+            mutant_res, partial = mutants_done if mutants_done else run_mutants()
+            t_ctl = time.time()
+            cb = uc.UnsatcacheBatch()
+            controls = {}
+            for how in ("rebind", "drop_core", "flip_hit", "truth_sat"):
+                for t in range(1, len(cases) + 1):
+                    tmp = uc.UnsatcacheBatch()
+                    tmp.add_built(batch.traces[t - 1])
+                    if tmp.corrupt_copy(1, how):
+                        controls[cb.add_built(tmp.traces[1], {"control": how})] = how
+                        break
+                else:
+                    raise MachineryError(f"no recorded log admits the control corruption {how!r} (no cache hit was recorded?)")
+            mutant_tids = {m: [cb.add_built(r_["trace"], {"mutant": m}) for r_ in rs] for m, rs in mutant_res.items()}
+            cres, cr = cb.validate(work, workers=4)
+            chk.add_tlc(cr)
+            for tid, how in controls.items():
+                v = cres[tid]
+                if v["ok"]:
+                    raise MachineryError(f"negative control {how}: the corrupted log was accepted")
+                chk.cov.setdefault("log_controls", {})[how] = v["why"]  # rejected by whichever clause fires first
+                chk.count("negative_controls_rejected")
+            for mutant, mt in mutant_tids.items():
+                whys = [cres[t]["why"] for t in mt if not cres[t]["ok"]]
+                nd = sum(1 for r_ in mutant_res[mutant] for d in r_["diffs"] if d[1] != "inconclusive")
+                chk.cov.setdefault("mutants", {})[mutant] = {"runs": len(mt), "logs_rejected": whys, "differential_disagreements": nd}
+                if not whys and not nd:
+                    raise MachineryError(f"negative control: the broken cache {mutant!r} was not noticed by trace validation nor by the differential")
+                if mutant == "nopin" and not whys:
+                    raise MachineryError("negative control: releasing both pins did not lead to a rejected log")
+                chk.count("negative_controls_rejected")
+            if tier == "thorough":
+                # how far do the runs without pins get?  (NoPin model: only clauses about stored cores and hits reject)
+                nbatch = uc.UnsatcacheBatch()
+                for t in mutant_tids.get("nopin", []):
+                    nbatch.add_built(cb.traces[t - 1])
+                nres, nr = nbatch.validate(work, cfg="MC_Trace_UnsatCache_nopin.cfg")
+                chk.add_tlc(nr)
+                chk.cov["mutants"]["nopin"]["clauses_under_nopin_model"] = sorted(v["why"] for v in nres.values() if not v["ok"])
+            for mutant, (pb, cfg) in partial.items():
+                if not pb.traces:
+                    continue
+                pres, pr = pb.validate(work, cfg=cfg)
+                chk.add_tlc(pr)
+                badp = {t: v for t, v in pres.items() if not v["ok"]}
+                chk.cov.setdefault("mutants", {})[mutant] = {"runs": len(pres), "logs_rejected": [v["why"] for v in badp.values()], "validated_against": cfg}
+                if badp:
+                    raise MachineryError(f"model fidelity: with only one reference released ({mutant}) the log is rejected by {cfg}: {badp}")
+                chk.count("single_pin_runs_accepted", len(pres))
+            chk.cov.setdefault("timing_s", {})["controls"] = round(time.time() - t_ctl, 1)
+
+        chk.cov.setdefault("timing_s", {}).update({"paired_runs_in_process": round(t_mut - t_pairs, 1),
+                                                   "mutant_runs_while_shards_run": round(t_join - t_mut, 1),
+                                                   "wait_for_background": round(t_val - t_join, 1),
+                                                   "real_trace_validation": round(t_val_end - t_val, 1)})
         chk.cov["rule"] = (
             "contracts generated from correlated decision trees (atoms over small constants, mostly on one argument, contradictions "
             "seeded near the root; Panic / ok / revert leaves), run through the real run_contract with branching answers `unknown` "
@@ -396,6 +431,7 @@ def replay(chk: Check, path: str):
         res = uc.unsatcache_case(case, work, pool)
         batch = uc.UnsatcacheBatch()
         tid = absorb(chk, case, res, batch)
+        judge_differential(chk, case, res)
         vres, r = batch.validate(work)
         chk.add_tlc(r)
         print("differences:", res["diffs"], "trace:", vres[tid])
